@@ -88,7 +88,7 @@ def api_init_graph(res, rng, metric, kind, wide=False):
             return
 
 
-def api_good_init(res, rng, metric, sparse=False, p=None, zero_rows=False, with_dist=False):
+def api_good_init(res, rng, metric, sparse=False, p=None, zero_rows=False, with_dist=False, wide=False):
     """a GOOD supplied graph (exact k-NN) with a few unknown (-1) entries, one of them in row 0, and no refinement: whatever the
     construction does, no supplied neighbour may be lost (random initialisation cannot rediscover them)"""
     from scipy.spatial.distance import cdist
@@ -100,7 +100,16 @@ def api_good_init(res, rng, metric, sparse=False, p=None, zero_rows=False, with_
             X[[5, 77, 141]] = 0.0                       # rows with nothing stored: their supplied neighbours count like any other row's
     D = cdist(X.astype(np.float64), X.astype(np.float64), {"euclidean": "euclidean", "manhattan": "cityblock", "minkowski": "minkowski"}[metric],
               **({"p": p} if p else {}))
-    G = np.argsort(D, axis=1)[:, :k].astype(np.int32)
+    if wide:
+        X[2] *= np.float32(0.05)          # a row close to the origin: nearer to "nothing" than to any of its neighbours
+        if sparse:
+            X[2, 0] = np.float32(0.05)
+        D = cdist(X.astype(np.float64), X.astype(np.float64), {"euclidean": "euclidean", "manhattan": "cityblock", "minkowski": "minkowski"}[metric],
+                  **({"p": p} if p else {}))
+    G = np.argsort(D, axis=1)[:, :(k + 2 if wide else k)].astype(np.int32)
+    if wide:
+        # more candidate columns than n_neighbors, an unknown entry AFTER k known ones (the heap is full when it is reached)
+        G[2, k] = -1; G[7, k + 1] = -1
     G[0, int(rng.integers(1, k))] = -1
     for r_ in rng.integers(1, n, 5):
         G[int(r_), int(rng.integers(1, k))] = -1
@@ -115,8 +124,15 @@ def api_good_init(res, rng, metric, sparse=False, p=None, zero_rows=False, with_
     inds, dists = idx.neighbor_graph
     case = {"metric": metric, "sparse": sparse, "p": p, "n": n, "k": k, "init": "exact k-NN with a -1 hole in row 0", "n_iters": 0}
     res.case(("good-init", metric, sparse, zero_rows, X.tobytes()[:64]), True, sample=case); res.count("api_good_init"); res.traces += 1
+    ghost = [(i, j) for i in range(n) for j in range(k) if inds[i, j] < 0 and np.isfinite(dists[i, j])]
+    if ghost:
+        i, j = ghost[0]
+        res.violation("rank:init_graph:%s:%s" % ("csr" if sparse else "dense32", metric),
+                      "exact initial graph with holes: row %d holds a -1 entry with the finite distance %r at position %d (an unknown "
+                      "entry of init_graph was pushed as if it were a neighbour: it takes the slot of a supplied one)" % (i, float(dists[i, j]), j), case)
+        return
     for i in range(n):
-        before = sorted(float(D[i, q]) for q in G[i] if q >= 0)
+        before = sorted(float(D[i, q]) for q in set(int(q_) for q_ in G[i]) if q >= 0)[:k]      # the result has k slots
         after = sorted(float(d) for d, q in zip(dists[i], inds[i]) if q >= 0)
         w = rank_worse(before, after, tol=2e-5, metric=metric)
         if w:
@@ -209,6 +225,7 @@ def run(res, tier, seed, search):
     api_init_graph(res, rng, "minkowski", "csr")          # metric arguments must reach the seeding of a CSR index too
     api_good_init(res, rng, "minkowski", sparse=True, p=3.0)
     api_good_init(res, rng, "euclidean", sparse=True, zero_rows=True)
+    api_good_init(res, rng, "euclidean", sparse=True, wide=True)
     api_good_init(res, rng, "euclidean")
     api_good_init(res, rng, "manhattan", with_dist=True)     # init_dist is used as supplied only when the metric has no surrogate
     if tier != "quick":
